@@ -13,6 +13,7 @@ quantifies over all inputs, depths, memory limits and `sizeof` constants.
 import TlxVerif.Proofs.C03Adapters
 import TlxVerif.Proofs.C03Partition
 import TlxVerif.Proofs.C03Permute
+import TlxVerif.Proofs.C03Two
 namespace TlxVerif.C03
 
 variable {α : Type} (str : α → Str)
@@ -238,6 +239,55 @@ theorem sort_strings_correct_unfolded (c : Consts) (ss : List α) (l : List Nat)
   refine ⟨p1, (sorted_iff_neighbours str _).mp s1, ?_, p2, (sorted_iff_neighbours str _).mp s2⟩
   intro i hi
   exact lcp_positions str _ l _ (l1 rfl) (by rw [hl]; exact p1.length_eq.symm) i hi
+
+/-! ## the two string arrays and the `flipped` flag -/
+
+/-- C03/active-shadow: the model with both string arrays, `flip`, `copy_back` and the `flipped`
+flag (`Model/C03Two.lean`) leaves on every range `(off, size, flipped)`, at every stack level, in
+the *original* array exactly the strings — and returns exactly the LCP values — that the list
+model computes, and touches neither array outside the range (8-bit loops) -/
+theorem two_array_refines_radix8 (c : Consts) (wl : Bool) (step : Nat)
+    (fuel : Nat) (t : Two α) (off size : Nat) (fl : Bool) (l : List Nat) (depth level memory : Nat)
+    (hsz : t.orig.size = t.shad.size) (hb : off + size ≤ t.orig.size)
+    (hf : ∀ x ∈ slice (t.active fl) off size, (str x).length < depth + fuel)
+    (hpre : Pre str wl depth (slice (t.active fl) off size) l) :
+    slice (ce8Two str c wl step fuel t off size fl l depth level memory).1.orig off size
+      = (ce8Loop str c wl step fuel (slice (t.active fl) off size) l depth level memory).1 ∧
+    (ce8Two str c wl step fuel t off size fl l depth level memory).2
+      = (ce8Loop str c wl step fuel (slice (t.active fl) off size) l depth level memory).2 ∧
+    Same t (ce8Two str c wl step fuel t off size fl l depth level memory).1 off (off + size) :=
+  ce8Two_ref str c wl step fuel t off size fl l depth level memory hsz hb hf hpre
+
+/-- the same for the 16-bit loop (which hands mid-size buckets to the 8-bit loop on a flipped range) -/
+theorem two_array_refines_radix16 (c : Consts) (wl : Bool)
+    (fuel : Nat) (t : Two α) (off size : Nat) (fl : Bool) (l : List Nat) (depth level memory : Nat)
+    (hsz : t.orig.size = t.shad.size) (hb : off + size ≤ t.orig.size)
+    (hf : ∀ x ∈ slice (t.active fl) off size, (str x).length < depth + fuel)
+    (hpre : Pre str wl depth (slice (t.active fl) off size) l) :
+    slice (ce3Two str c wl fuel t off size fl l depth level memory).1.orig off size
+      = (ce3Loop str c wl fuel (slice (t.active fl) off size) l depth level memory).1 ∧
+    (ce3Two str c wl fuel t off size fl l depth level memory).2
+      = (ce3Loop str c wl fuel (slice (t.active fl) off size) l depth level memory).2 ∧
+    Same t (ce3Two str c wl fuel t off size fl l depth level memory).1 off (off + size) :=
+  ce3Two_ref str c wl fuel t off size fl l depth level memory hsz hb hf hpre
+
+/-- C03 for the two-array form of the front end (this is the function the correspondence driver
+runs for `sort_strings`, `radixsort_CE0/CE2/CE3`) -/
+theorem sort_strings_two_array_correct (c : Consts) (wl : Bool)
+    (ss : List α) (l : List Nat) (mem : Nat) (hn : NulFree str ss) (hl : wl = true → l.length = ss.length) :
+    SortSpec str wl ss l (sortStringsTwo str c wl ss l mem) := by
+  have hpre : Pre str wl 0 ss l := ⟨fun _ _ _ _ => Nat.zero_le _, hn, hl⟩
+  unfold sortStringsTwo
+  rw [radixsortCE3Two_eq str c wl 0 ss l mem hpre]
+  exact sort_strings_correct str c wl ss l mem hn hl
+
+theorem radixsort_two_array_eq (c : Consts) (wl : Bool) (d : Nat) (ss : List α) (l : List Nat) (mem : Nat)
+    (hpre : Pre str wl d ss l) :
+    radixsortCE0Two str c wl d ss l mem = radixsortCE0 str c wl d ss l mem ∧
+    radixsortCE2Two str c wl d ss l mem = radixsortCE2 str c wl d ss l mem ∧
+    radixsortCE3Two str c wl d ss l mem = radixsortCE3 str c wl d ss l mem :=
+  ⟨radixsortCE0Two_eq str c wl d ss l mem hpre, radixsortCE2Two_eq str c wl d ss l mem hpre,
+    radixsortCE3Two_eq str c wl d ss l mem hpre⟩
 
 /-! ## non-vacuity -/
 
